@@ -277,3 +277,27 @@ func PatientWait(what string, budget, hardCap time.Duration, keep func(GState) b
 	schedMu.Unlock()
 	return false, false
 }
+
+var diagSeq int64
+
+// SaveDiag keeps a diagnostic text (goroutine dump of a hang) beyond the run: ./check removes the run directory with the
+// harness log when it ends, so the dump is also written next to the replay files (<verif>/replays/diag-<name>-<pid>-<n>.txt
+// when the harness runs in <verif>/.run/<pid>, else into the working directory). Returns the path ("" = not written).
+func SaveDiag(name, text string) string {
+	schedMu.Lock()
+	diagSeq++
+	n := diagSeq
+	schedMu.Unlock()
+	dir := "."
+	if wd, err := os.Getwd(); err == nil && strings.Contains(wd, string(os.PathSeparator)+".run"+string(os.PathSeparator)) {
+		dir = "../../replays"
+		if os.MkdirAll(dir, 0o755) != nil {
+			dir = "."
+		}
+	}
+	path := fmt.Sprintf("%s/diag-%s-%d-%d.txt", dir, name, os.Getpid(), n)
+	if n > 20 || os.WriteFile(path, []byte(text), 0o644) != nil { // at most 20 dumps per process
+		return ""
+	}
+	return path
+}
